@@ -17,7 +17,7 @@ import (
 func init() {
 	register(&Check{
 		ID:   "C14",
-		Rule: "case = (type mixing nocopy and ordinary string/binary fields, plain and optional-pointer forms, nested structs at field / list element / map value position, value with lengths from 0 to 70000, reference-encoded message in random wire order, buffer right-aligned against a guard page). Oracle: every nocopy field is exactly (address, len, cap) the value's extent in the input as located by the schema-less parser; zero-length values and every other piece of the decoded object (memory walker) lie outside the buffer; flipping buffer bytes outside nocopy extents leaves the value unchanged, flipping bytes inside shows through that field. distinct = distinct (type shape, set of value lengths classes); non-trivial = at least one non-empty nocopy value and one ordinary string/binary",
+		Rule: "case = (type mixing nocopy and ordinary string/binary fields, plain and optional-pointer forms, nested structs at field / list element / map value position, value with lengths from 0 to 70000, reference-encoded message in random wire order, buffer right-aligned against a guard page). Oracle: every nocopy field is exactly (address, len, cap) the value's extent in the input as located by the schema-less parser; zero-length values and every other piece of the decoded object (memory walker) lie outside the buffer; flipping buffer bytes outside nocopy extents leaves the value unchanged, flipping bytes inside shows through that field; in every third case a second message (half of them with empty strings) is decoded into the same destination instead: the first result's memory image is unchanged and the object equals the reference decoder's. distinct = distinct (type shape, set of value lengths classes); non-trivial = at least one non-empty nocopy value and one ordinary string/binary",
 		Plan: func(tier string) []BuildPlan {
 			if tier == "thorough" {
 				return []BuildPlan{{"plain", 500000}, {"checkptr", 150000}, {"asan", 40000}}
@@ -202,6 +202,44 @@ func runC14(c *harness.Ctx, idx int) {
 	}
 	if a := mon.CheckAlign(pieces); a != "" {
 		c.Violation("align", "C14/align", "%s", a)
+	}
+	if idx%3 == 0 {
+		// the application decodes the next message into the same object while still holding
+		// (a shallow copy of) the first result: the views handed out by the first decode stay
+		// views of the first buffer, the object takes the second message's values - also
+		// where those are empty
+		keep := reflect.New(s.Go)
+		keep.Elem().Set(dst.Elem())
+		var kp []mon.Piece
+		mon.Walk(keep.Elem(), "", &kp)
+		kp = mon.DropStatic(kp)
+		kimg := mon.Image(kp)
+		vc2 := gen.DefaultValCfg()
+		if r.Bool() {
+			vc2.ForceStrLen = 0
+		}
+		v2 := gen.NewValue(r, s, vc2)
+		msg2 := ref.EncodeWith(s, v2.Elem(), &ref.EncodeOpts{Order: r.Perm})
+		c.Step("second message into the same destination msg2=%s", hexClip(msg2))
+		if _, info2, rerr2 := ref.Decode(s, msg2, exp.Elem()); rerr2 == nil && !info2.DupKey {
+			g2, reg2 := mon.GuardedCopy(msg2, false)
+			defer reg2.Free()
+			d2 := fDecode(g2, dst.Interface())
+			if d2.panicked() || d2.err != nil {
+				c.Violation("decode-failed", "C14/redecode-failed/"+sig, "DecodeObject of a second message into the same destination failed: err=%v panic=%v", d2.err, d2.pv)
+				return
+			}
+			if d := mon.CompareImage(kp, kimg); d != "" {
+				c.Violation("old-view-changed", "C14/first-result-rewritten", "decoding a second message into the same destination rewrote memory of the first result (its fields no longer view the first buffer): %s", d)
+			}
+			if d := ref.Diff(s, exp.Elem(), dst.Elem(), ref.CmpOpts{}); d != "" {
+				c.Violation("value", "C14/redecode-value/"+sig, "after a second message into the same destination the value differs from the reference decoder's: %s", d)
+			}
+			c.Count("second_decodes", 1)
+		}
+		c.Tag("variant:reused-destination")
+		c.Sample(map[string]interface{}{"type": s.Describe(), "msg": hexClip(msg), "views": len(extents), "variant": "reused-destination"})
+		return
 	}
 	// buffer mutation outside the views is invisible, inside is visible
 	inView := make([]bool, len(g))
